@@ -315,3 +315,7 @@ Count: 5
         assert_eq!(format!("{}", h), f)
     }
 }
+
+#[cfg(all(transparencies_stretto_verif, any(kani, test)))]
+#[path = "/verif/harness/h_histogram.rs"]
+mod verif_harness;
